@@ -23,7 +23,14 @@ import Reduino.GenOb.Ops
   semantics on unbounded ints; `& | ^` of two bools is a bool), `//` and `%` (Python: floor / sign of the divisor,
   ZeroDivisionError on a zero divisor), `abs(e)`, `min(a, b)` / `max(a, b)` over int-typed operands (C side: the
   Arduino macros, with the overflow check on the negation inside `abs`), unary minus, comparisons, and/or/not,
-  conditional expressions.  The operator tokens `Render` prints are tied to the transpiler's `_BIN`/`_UN`/`_CMP` tables by the
+  conditional expressions.
+  Statements (W5): tuple (parallel) assignment `x0, x1, … = e0, e1, …` to names already declared with the types of the right-hand
+  sides, at top level, in nested blocks and in the main loop: Python evaluates every right-hand side in the old store and then binds the
+  targets left to right (`Py.evalList`, `Store.setAll`); the sketch declares one block-scoped temporary `__tmp_assign_N` per
+  right-hand side (N from the counter the parser threads through the whole script: `Stmt.tmpEnd`, `Prog.numbered`) and then assigns
+  the targets from the temporaries (`C.declTemps`, `C.assignTemps`, `C.dropTemps`).  `C01_partial` and `C01_partial_promotion` cover it
+  (statements unchanged: `InF`/`InF2`, `tr`/`tr2` and both semantics gained the constructor).
+  The operator tokens `Render` prints are tied to the transpiler's `_BIN`/`_UN`/`_CMP` tables by the
   obligations of `GenOb/Ops.lean`.
 -/
 namespace Reduino.Props.C01
